@@ -960,6 +960,7 @@ func (g *G) genC06(p *Plan, listing bool) {
 		nup++
 	}
 	uploaded := map[int][]int{}
+	var partBodies []*BodySpec
 	n := g.n(10, 30)
 	for i := 0; i < n; i++ {
 		up := g.rng.Intn(nup)
@@ -982,6 +983,13 @@ func (g *G) genC06(p *Plan, listing bool) {
 			if g.chance(0.05) {
 				op.Body.Size = 1 + g.size()
 			}
+			if len(partBodies) > 0 && g.chance(0.15) {
+				// the very bytes an earlier part was uploaded with (zero-filled
+				// or repeated blocks; a retry): content is no identity
+				cp := *partBodies[g.rng.Intn(len(partBodies))]
+				op.Body = &cp
+			}
+			partBodies = append(partBodies, op.Body)
 			uploaded[up] = append(uploaded[up], pn)
 		case r < 62:
 			op = Op{K: "mpu-complete", Up: up, Parts: g.partList(uploaded[up])}
